@@ -624,7 +624,7 @@ func init() {
 			v.Nontrivial = true
 			return v
 		},
-		Rule:        "race-detector build (-race, halt_on_error=0, reports parsed from the log files): storm runs of every nesting-pair program and PRNG programs with, at every round, bursts of concurrent subscribe/unsubscribe churn, CloneVariables/CloneItems/GetVariable loops, waits with expiring contexts and stranger-event deliveries, hooks at 0.3, GOMAXPROCS 4 and 16; concurrent event-based-gateway, boundary-event-race and event-delivery workloads borrowed from C06/C10/C11; process sets with message flows (instantiating throws, catch events registering with the set one after the other, concurrent set waiters) borrowed from C18; concurrent SetVariable/GetVariable/CloneVariables histories checked per key with porcupine; every workload repeated 3 (quick) / 25 (thorough) times, one process per workload; verdict = race reports with an engine frame (deduplicated by the pair of innermost /repo functions), engine panics, and storm-oracle violations; distinct = descriptor hash, all non-trivial",
+		Rule:        "race-detector build (-race, halt_on_error=0, reports parsed from the log files): storm runs of every nesting-pair program and PRNG programs with, at every round, bursts of concurrent subscribe/unsubscribe churn, CloneVariables/CloneItems/GetVariable loops, waits with expiring contexts and stranger-event deliveries, hooks at 0.3, GOMAXPROCS 4 and 16; concurrent event-based-gateway, boundary-event-race and event-delivery workloads borrowed from C06/C10/C11; process sets with message flows (instantiating throws, catch events registering with the set one after the other, concurrent set waiters) borrowed from C18; concurrent SetVariable/GetVariable/CloneVariables histories checked per key with porcupine; every workload repeated 3 (quick) / 25 (thorough) times, one process per workload; verdict = race reports with an engine frame (deduplicated by the pair of innermost /repo functions), engine panics, and storm-oracle violations; distinct = descriptor hash, all non-trivial; conditions-more cases (192 branches) and process sets of link kind fanstart",
 		WatchdogSec: 300,
 		MaxShards:   8,
 		Assumptions: []string{"a race is only reported on schedules that occur; the evidence lists the deduplicated access pairs seen, not 'race-free'", "reports whose two accesses are both innermost in third-party code on library-private state are listed as third_party_reports and are not verdicts"},
